@@ -689,7 +689,7 @@ func (rs remaperSymbol) Lookup(r rune) (GID, bool) {
 		return g, true
 	}
 
-	if r <= 0x00FF {
+	if 0 <= r && r <= 0x00FF {
 		/* For symbol-encoded OpenType fonts, we duplicate the
 		 * U+F000..F0FF range at U+0000..U+00FF.  That's what
 		 * Windows seems to do, and that's hinted about at:
